@@ -26,6 +26,18 @@ use tokio_util::sync::{CancellationToken, WaitForCancellationFuture};
 use tracing::{debug, error, info, trace, warn};
 use uuid::Uuid;
 
+/// Verification hooks: lets a harness decide where the candidate batches of the
+/// subscription and update loops are cut instead of the 600 ms timer.
+#[cfg(corro_verif)]
+pub mod verif_hooks {
+    use std::sync::atomic::{AtomicBool, AtomicU64};
+    pub static MANUAL: AtomicBool = AtomicBool::new(false);
+    pub static FLUSH_GEN: AtomicU64 = AtomicU64::new(0);
+    pub static SUBS_FLUSHED: AtomicU64 = AtomicU64::new(0);
+    pub static UPDATES_FLUSHED: AtomicU64 = AtomicU64::new(0);
+    pub const MANUAL_TICK: std::time::Duration = std::time::Duration::from_millis(15);
+}
+
 pub trait Manager<H> {
     fn trait_type(&self) -> String;
     fn get(&self, id: &Uuid) -> Option<H>;
@@ -337,6 +349,9 @@ async fn batch_candidates(
     let process_changes_deadline = tokio::time::sleep(PROCESS_BUFFER_DEADLINE);
     tokio::pin!(process_changes_deadline);
 
+    #[cfg(corro_verif)]
+    let mut verif_gen = verif_hooks::FLUSH_GEN.load(std::sync::atomic::Ordering::SeqCst);
+
     let mut process = false;
     loop {
         tokio::select! {
@@ -378,6 +393,26 @@ async fn batch_candidates(
                 }
             },
             _ = process_changes_deadline.as_mut() => {
+                #[cfg(corro_verif)]
+                if verif_hooks::MANUAL.load(std::sync::atomic::Ordering::SeqCst) {
+                    process_changes_deadline
+                        .as_mut()
+                        .reset(Instant::now() + verif_hooks::MANUAL_TICK);
+                    let flush_gen = verif_hooks::FLUSH_GEN.load(std::sync::atomic::Ordering::SeqCst);
+                    if flush_gen == verif_gen {
+                        continue;
+                    }
+                    verif_gen = flush_gen;
+                    if let Err(e) =
+                        block_in_place(|| handle_candidates(evt_tx.clone(), std::mem::take(&mut buf)))
+                    {
+                        error!(sub_id = %id, "could not handle change: {e}");
+                        break;
+                    }
+                    buf_count = 0;
+                    verif_hooks::UPDATES_FLUSHED.fetch_add(1, std::sync::atomic::Ordering::SeqCst);
+                    continue;
+                }
                 process_changes_deadline
                     .as_mut()
                     .reset(Instant::now() + PROCESS_BUFFER_DEADLINE);
